@@ -373,7 +373,10 @@ def _check_insert(ctx, mod, cls):
         if l == "exc":
             return False
         n = g.node(a)
-        if n.kind == "test" and src(n.ast) in (f"self.{NEW}", f"len(self.{NEW})") and l == "F":
+        if n.kind == "test" and l == "F" and (src(n.ast) in (f"self.{NEW}", f"len(self.{NEW})") or (
+                isinstance(n.ast, ast.Name) and n.ast.id in pre_alias) or (
+                isinstance(n.ast, ast.Call) and dotted(n.ast.func) == "len" and n.ast.args and isinstance(n.ast.args[0], ast.Name)
+                and n.ast.args[0].id in pre_alias)):
             return False
         return True
     wit = g.path([g.entry], [g.exit], avoid=resets, edge_ok=nonempty_edge)
@@ -384,7 +387,7 @@ def _check_insert(ctx, mod, cls):
         if isinstance(loop.iter, ast.Name):
             # iterating a captured alias: clearing is fine once the alias holds the list, but not inside the loop
             al = [n for n in g.ids_of(pre_alias[loop.iter.id])]
-            inside = g.path([head], [r], strict=True) is not None
+            inside = g.path([r], [head], strict=True) is not None
             before = g.path([g.entry], [r], avoid=al) is not None and r not in al
         else:
             inside = g.path([r], [head], strict=True) is not None
@@ -683,7 +686,7 @@ def _check_public_api(ctx, mod, cls, canc, rst):
             msg = (f"{root}() can be called by user code from inside a running timed call and reaches `{src(a.node)[:70]}` ({via}): calls "
                    "scheduled during this iteration leave the staging list early or are lost")
         ctx.check(allowed, "api/no-heap-motion-from-user-callable", c, msg)
-    ctx.floor("api/no-heap-motion-from-user-callable", n, 2, "reachable mutations")
+    ctx.floor("api/no-heap-motion-from-user-callable", n, 1, "reachable mutations")
     # the drivers themselves are not reachable from the other public methods except as whole iterations
     for d in sorted(INTERNAL_DRIVERS):
         ctx.need(d in ms, f"ReactorBase.{d}")
@@ -880,4 +883,31 @@ SILENT += [
            "delay = min(c.getTime() for c in self._pendingTimedCalls) - self.seconds()"),
     Silent("timeout-head-in-local", BASE, "delay = self._pendingTimedCalls[0].time - self.seconds()",
            "head = self._pendingTimedCalls[0]\n        delay = head.time - self.seconds()"),
+]
+
+_DC_RESET_ELSE = ('        else:\n            newTime = self.seconds() + secondsFromNow\n            if newTime < self.time:\n                self.delayed_time = 0.0\n'
+                  '                self.time = newTime\n                self.resetter(self)\n            else:\n                self.delayed_time = newTime - self.time\n')
+SILENT += [
+    # guard clauses and a boolean temporary in DelayedCall.reset
+    Silent("reset-boolean-temporary", BASE, _DC_RESET_ELSE,
+           "        else:\n            newTime = self.seconds() + secondsFromNow\n            movesSooner = newTime < self.time\n            if not movesSooner:\n"
+           "                self.delayed_time = newTime - self.time\n                return\n            self.delayed_time = 0.0\n            self.time = newTime\n            self.resetter(self)\n"),
+    # the sift-up loop in a private static helper
+    Silent("sift-up-in-static-helper", BASE,
+           "            elt = heap[pos]\n            while pos != 0:\n                parent = (pos - 1) // 2\n                if heap[parent] <= elt:\n                    break\n"
+           "                # move parent down\n                heap[pos] = heap[parent]\n                pos = parent\n            heap[pos] = elt\n",
+           "            self._siftUp(heap, pos)\n",
+           more=[(BASE, "    def _cancelCallLater(self, delayedCall: DelayedCall) -> None:",
+                  "    @staticmethod\n    def _siftUp(calls, index):\n        moving = calls[index]\n        while index > 0:\n            up = (index - 1) // 2\n"
+                  "            if calls[up] <= moving:\n                break\n            calls[index] = calls[up]\n            index = up\n        calls[index] = moving\n\n"
+                  "    def _cancelCallLater(self, delayedCall: DelayedCall) -> None:")]),
+    # inverted fast path with a local alias of the staging list
+    Silent("insert-inverted-fast-path", BASE,
+           "        if not self._newTimedCalls:\n            return\n\n" + _INSERT_LOOP,
+           "        fresh = self._newTimedCalls\n        if fresh:\n            for item in fresh:\n                if not item.cancelled:\n                    item.activate_delay()\n"
+           "                    heappush(self._pendingTimedCalls, item)\n                else:\n                    self._cancellations -= 1\n            self._newTimedCalls = []\n"),
+    # log-handler selection moved into a module-level helper
+    Silent("log-handler-from-helper", BASE, "            with logHandler:\n", "            with _pickHandler(logHandler):\n",
+           more=[(BASE, "@implementer(IDelayedCall)\nclass DelayedCall:", "def _pickHandler(h):\n    if h is None:\n        return _DEFAULT_DELAYED_CALL_LOGGING_HANDLER\n"
+                  "    return _log.failuresHandled(\"while handling timed call\")\n\n\n@implementer(IDelayedCall)\nclass DelayedCall:")]),
 ]
